@@ -2,7 +2,7 @@
 be discharged, on every enumerated path that reaches it, by the decisions taken earlier on that path
 (interval / symbolic guards on buffer lengths, Some-ness facts, bounded arithmetic) or by a single-symbol
 allow entry with a reason. Nothing is executed; paths come from zrules.sym."""
-from .sym import Sym, show, walk_expr, Interval, FLIP, PathExplosion
+from .sym import Sym, show, walk_expr, Interval, FLIP, PathExplosion, try_from_decision
 from .common import short, strip_casts
 from .facts import callee_name, fmt_span
 
@@ -108,6 +108,10 @@ class LenFacts:
             while x[0] == "unop" and x[1] == "Not":
                 truth = not truth
                 x = x[2]
+            tf = try_from_decision(e, c)
+            if tf is not None and buffer_key(tf[0]) == key:
+                self.iv.meet_cmp("Le" if tf[2] else "Gt", tf[1], True)
+                continue
             if x[0] == "pure" and short(x[1]) == "is_empty" and len(x[2]) == 1:
                 k = (norm_base(x[2][0]), x[3][0] if x[3] else 0)
                 if k == key or view_key(x[2][0]) == key:
@@ -474,9 +478,17 @@ def evaluate(f, body, paths, allow=None, extra_sites=None, extra_discharge=None)
     allow = allow or {}
     sites = {(s["fn"], s["bb"]): s for s in inventory(body)}
     res = {k: {"site": s, "paths": 0, "fail": None, "reasons": set()} for k, s in sites.items()}
+    foreign_done = set()
     for p in paths:
         for i, ev in enumerate(p.events):
             k = (ev.fnpath, ev.bb)
+            if k not in res and ev.fnpath != body.path and ev.fnpath not in foreign_done:
+                # sites inside a helper that was looked through: evaluated in this caller's context
+                foreign_done.add(ev.fnpath)
+                fb = f.body(ev.fnpath)
+                if fb is not None:
+                    for s in inventory(fb):
+                        res[(s["fn"], s["bb"])] = {"site": s, "paths": 0, "fail": None, "reasons": set(), "foreign": True}
             if k not in res:
                 continue
             if ev.kind not in ("call", "assert"):
